@@ -253,8 +253,10 @@ def _worker(args):
         for sel in (4, 7, 200, 255):
             priv_, pub_ = rcpts.pick(r)
             try:
-                rawb = _IEB(sel).pack(plan0.key, [B2.enc_ecc_pub(sel, pub_)[0]])
-            except Exception:                                  # noqa: BLE001 -- the writer refuses such a selector: nothing to read
+                # (InitEccAuthBlock(sel).pack builds the published-key fallback for `sel` eagerly and fails for sel > 3: the block is
+                #  assembled from its parts - selector byte + the encryptor's output)
+                rawb = bytes([sel]) + B2.enc_ecc_pub(sel, pub_)[0].encrypt(plan0.key)
+            except Exception:                                  # noqa: BLE001 -- the encryptor refuses such a selector: nothing to read
                 continue
             seams.take()
             h = BEC2_FILE_SIG + bytes([3, len(rawb)]) + rawb + b"\x00\x00"
